@@ -30,6 +30,7 @@ def parseOp (ws : List String) : Option Op :=
     pure (.commit n cnt (← parseHandles (← field "R=" r)) (← parseHandles (← field "A=" a))
       (← parseHandles (← field "U=" u)) (← parseKeys (← field "D=" d)))
   | ["remove", n] => some (.remove n)
+  | ["open", v] => do pure (.openv (← v.toNat?))
   | ["break", "drive"] => some (.brk .drive)
   | ["break", "store", n] => some (.brk (.store n))
   | ["heal", "keep"] => some (.heal true)
